@@ -550,3 +550,160 @@ def label_addr(a: dict) -> str:
     if a["k"] == "wild":
         return "wild-nc" if not R.is_contiguous(a["w"]) else "wild-contig"
     return a["k"]
+
+
+# --------------------------------------------------------------------------------------- ACL programs
+REMARK_ALPHABET = "abcdefghijklmnopqrstuvwxyzABCXYZ0123456789-_=*#.,:;/()[]<>+!@$%&|~'\""
+
+
+def remark_text_st():
+    word = st.text(alphabet=REMARK_ALPHABET, min_size=1, max_size=8)
+    tricky = st.sampled_from(["10", "permit ip any any", "deny tcp any any eq 80", "remark", "20 remark x",
+                              "host 10.0.0.1", "eq www", "log", "4294967295", "ip access-list extended X",
+                              "statistics per-entry", "description d"])
+    return st.lists(st.one_of(word, word, word, tricky), min_size=1, max_size=4).map(" ".join)
+
+
+def validate_acl(case) -> None:
+    from lib.harness import Invalid
+
+    if not isinstance(case, dict) or case.get("platform") not in ("ios", "nxos"):
+        raise Invalid()
+    if not isinstance(case.get("items"), list):
+        raise Invalid()
+    for it in case["items"]:
+        if not isinstance(it, dict) or it.get("t") not in ("ace", "rem"):
+            raise Invalid()
+        if it["t"] == "ace":
+            validate_rec(it.get("rec"), case["platform"])
+        else:
+            text = it.get("text")
+            if not isinstance(text, str) or not text or text != " ".join(text.split()) or "\n" in text:
+                raise Invalid()
+            if not isinstance(it.get("seq", 0), int) or not 0 <= it.get("seq", 0) <= R.SEQ_MAX:
+                raise Invalid()
+    if not isinstance(case.get("indent", " "), str) or case.get("indent", " ").strip(" \t"):
+        raise Invalid()
+    name = case.get("name", "T")
+    if not isinstance(name, str) or not name or name != name.strip() or " " in name or "?" in name:
+        raise Invalid()
+
+
+def acl_header(case) -> str:
+    name = case.get("name", "T")
+    if case["platform"] == "ios":
+        return f"ip access-list {case.get('type', 'extended')} {name}"
+    return f"ip access-list {name}"
+
+
+def item_line(it: dict, platform: str, version: str = "0", noise: bool = True) -> str:
+    if it["t"] == "rem":
+        return (f"{it['seq']} " if it.get("seq") else "") + "remark " + it["text"]
+    return render_ace(it["rec"], platform, version, noise)
+
+
+def render_acl(case, noise: bool = True) -> str:
+    ind = case.get("indent", " ") or " "
+    lines = [acl_header(case)]
+    for it in case["items"]:
+        lines.append(ind + item_line(it, case["platform"], case.get("version", "0"), noise))
+    return "\n".join(lines)
+
+
+def acl_kwargs(case) -> dict:
+    kw = dict(platform=case["platform"])
+    for key in ("version", "port_nr", "protocol_nr", "group_by", "indent"):
+        if case.get(key) not in (None, "", False):
+            kw[key] = case[key]
+    return kw
+
+
+@st.composite
+def acl_st(draw, platform=None, min_items=0, max_items=12, kmax=3, groups=False, members=True, seqs=True,
+           headings=True, group_by=True, noise=False, native=True, neq_multi=True, multi=True, empty_sets=False,
+           dup_headings=False, established=True, opaque=False, indent=True):
+    platform = platform or draw(st.sampled_from(["ios", "nxos"]))
+    kw = dict(kmax=kmax, groups=groups, members=members, seq=False, noise=noise, empty_sets=empty_sets,
+              neq_multi=neq_multi, multi=multi, established=established, opaque=opaque)
+    pool = [draw(ace_st(platform, **kw)) for _ in range(draw(st.integers(1, 4)))]
+    prefix = draw(st.sampled_from(["= ", "= ", "=== ", "#", "grp:"]))
+    n = draw(st.integers(min_items, max_items))
+    items, hcount = [], 0
+    for i in range(n):
+        kind = draw(st.integers(0, 11))
+        if kind < 2 and headings:
+            hcount += 1
+            name = f"H{hcount}" if not (dup_headings and hcount > 1 and draw(st.integers(0, 3)) == 0) else "H1"
+            items.append({"t": "rem", "text": f"{prefix}{name}", "seq": 0})
+        elif kind < 4:
+            text = draw(remark_text_st())
+            if text.startswith(prefix):
+                text = "x" + text
+            items.append({"t": "rem", "text": text, "seq": 0})
+        elif kind < 6:
+            items.append({"t": "ace", "rec": dict(draw(st.sampled_from(pool)))})
+        elif kind < 10:
+            items.append({"t": "ace", "rec": draw(mutate_ace(draw(st.sampled_from(pool)), platform, kmax=kmax,
+                                                             groups=groups, empty_sets=empty_sets,
+                                                             established=established, multi=multi))})
+        else:
+            items.append({"t": "ace", "rec": draw(ace_st(platform, **kw))})
+    for it in items:
+        if it["t"] == "ace":
+            rec = it["rec"]
+            if not neq_multi:
+                for side in ("sp", "dp"):
+                    if rec.get(side) and rec[side]["op"] == "neq" and len(rec[side]["v"]) > 1:
+                        rec[side] = dict(rec[side], v=rec[side]["v"][:1], nm=rec[side]["nm"][:1])
+            if native:
+                it["rec"] = to_native(rec, platform)
+    mode = draw(st.sampled_from(["none", "none", "all", "some", "wild"])) if seqs else "none"
+    if mode != "none":
+        cur = draw(st.sampled_from([1, 5, 10, 100]))
+        for it in items:
+            if mode == "some" and draw(st.booleans()):
+                continue
+            val = cur if mode != "wild" else draw(st.one_of(st.integers(1, 300), st.integers(1, R.SEQ_MAX)))
+            if it["t"] == "ace":
+                it["rec"]["seq"] = val
+            else:
+                it["seq"] = val
+            cur += draw(st.sampled_from([1, 5, 10]))
+    case = {"platform": platform, "name": draw(st.sampled_from(["T", "ACL-1", "acl_x.y", "110"])), "type": "extended",
+            "items": items, "prefix": prefix,
+            "group_by": prefix if (group_by and headings and draw(st.integers(0, 2)) == 0) else "",
+            "indent": draw(st.sampled_from([" ", "  ", "  ", "   ", "    ", "\t"])) if indent else "  "}
+    return case
+
+
+def strip_members(rec: dict) -> dict:
+    out = dict(rec)
+    for side in ("src", "dst"):
+        if rec[side]["k"] == "group":
+            out[side] = dict(rec[side], m=[])
+    return out
+
+
+def flat_meaning(case):
+    """Ordered (kind, seq, meaning) list predicted for the ACL *text* by construction (group members are
+    not part of the text)."""
+    out = []
+    for it in case["items"]:
+        if it["t"] == "rem":
+            out.append(("r", it.get("seq") or 0, it["text"]))
+        else:
+            rule = rec_rule(strip_members(it["rec"]))
+            out.append(("a", rule.seq, rule.meaning()))
+    return out
+
+
+def read_flat(text: str, platform: str, version: str = "0", strict: bool = True, members=None):
+    """Reference reading of rendered ACL text -> header + ordered (kind, seq, meaning) list."""
+    acl = R.read_acl(text, platform, names_fn(platform, version), lib_proto_any(), strict=strict)
+    out = []
+    for x in acl.items:
+        if isinstance(x, R.RemarkLine):
+            out.append(("r", x.seq, x.text))
+        else:
+            out.append(("a", x.seq, x.meaning()))
+    return acl, out
